@@ -4,6 +4,7 @@ import TantivyModel.Proofs.SSTable.Stream
 import TantivyModel.Proofs.SSTable.OrdToTerm
 import TantivyModel.Proofs.SSTable.RangeDict
 import TantivyModel.Proofs.SSTable.DeltaScan
+import TantivyModel.Proofs.SSTable.Prune
 /-!
 # C15 — Term dictionaries behave as ordered maps from byte strings
 
@@ -244,6 +245,17 @@ theorem C15_automaton_stream_partial {σ V} (A : Automaton σ) (lo hi : Bound) (
   funext e
   cases matchLo lo e.1 <;> cases matchHi hi e.1 <;> cases A.accepts e.1 <;> rfl
 
+/-- soundness of the mirrored `can_block_match_automaton` (common prefix walk, `match_range_start`,
+`match_range_end`, the 256-byte fan-outs) for EVERY automaton whose `can_match` is sound: if some
+key above the previous separator (none for the first block) and at most the block's separator is
+accepted, the block is kept. Together with `C15_block_separators` (every key of block i lies in
+`(sep (i-1), sep i]`) this discharges the `hsound` hypothesis of `C15_automaton_stream_partial` for
+the pruning the code performs. -/
+theorem C15_block_pruning_sound {σ} (A : Automaton σ) (hA : A.CanMatchSound) (prevSep : Option Key)
+    (sep key : Key) (h1 : ∀ s, prevSep = some s → lexLt s key = true) (h2 : lexLe key sep = true)
+    (hacc : A.accepts key = true) : canBlockMatch A prevSep sep = true :=
+  canBlockMatch_sound A hA prevSep sep key h1 h2 hacc
+
 /-- the ordinal misreport is a property of the mechanism, not of an input: skipping a block
 makes the scan count from the wrong base -/
 theorem C15_search_ordinal_counterexample :
@@ -263,8 +275,9 @@ theorem C15_inverted_range_counterexample :
 /- Still to prove (full statements; the harness compares these operations on every run):
    C15_prefix_range           : isPrefixOf p k ↔ matchLo (prefixBounds p).1 k ∧ matchHi (prefixBounds p).2 k
    C15_automaton_stream       : A.CanMatchSound → keys/values of (build L m).search A lo hi
-                                  = search A m lo hi, i.e. `canBlockMatch` is a sound pruning in the
-                                  sense of C15_automaton_stream_partial
+                                  = search A m lo hi: the assembly of C15_block_pruning_sound (proved),
+                                  C15_block_separators (proved) and C15_automaton_stream_partial (proved)
+                                  over the index walk `keptBlocks` + block-id range filter is not done yet
    C15_merge                  : (∀ m ∈ ms, SortedMap m) → kwayMerge comb ms = mergeSpec comb ms
                                   ∧ ordinal tables total and strictly monotone -/
 
